@@ -49,6 +49,9 @@ fn code_for(kind: &str) -> Vec<u8> {
         "probe" => asm::probe_runtime(),
         "suicide" => asm::suicide_runtime(),
         "height" => asm::height_runtime(),
+        // init code whose installed runtime is the 32-byte block number it ran in (C17: a simulated creation must
+        // return exactly the code the deployment installs)
+        "numinit" => return asm::cat(&[&[asm::NUMBER], &asm::push(0), &[asm::MSTORE], &asm::push(32), &asm::push(0), &[asm::RETURN]]),
         "badinit" => return vec![asm::INVALID],
         "revinit" => return asm::cat(&[&asm::push(0), &asm::push(0), &[asm::REVERT]]),
         _ => asm::store_runtime(),
@@ -188,6 +191,33 @@ fn gen_case(r: &mut Rng, p: &Params, out: &mut Vec<String>) {
             out.push(gen_read(r, &g));
             continue;
         }
+        if !in_block && roll < 35 && g.height.is_some() && g.contracts.iter().any(|c| c.1 == "log1" || c.1 == "log2") && r.chance(50) {
+            // log burst (C18): three consecutive blocks with two or three logs each, then range queries over them
+            let logc: Vec<(String, String)> = g.contracts.iter().filter(|c| c.1 == "log1" || c.1 == "log2").cloned().collect();
+            for _ in 0..3 {
+                g.ts += 600;
+                g.hash += 1;
+                let bh = 1_000_000 + g.hash;
+                let n_calls = 2 + r.below(2);
+                for i in 0..n_calls {
+                    let c = r.pick(&logc).clone();
+                    let mut rr = r.fork();
+                    out.push(format!("call pk={} to={} data={} ts={} hash={} idx={} insc=i{} len=auto txid={} field=hex", r.pick(&PKS), c.0, hex::encode(call_data(&mut rr, &c.1)), g.ts, h256(bh), i, g.insc, h256(0xabc000 + g.insc + 1)));
+                    g.insc += 1;
+                }
+                out.push(format!("fin ts={} hash={} count={}", g.ts, h256(bh), n_calls));
+                let hh = g.next();
+                expire_pool(&mut g, hh);
+                g.height = Some(hh);
+                g.max_ever = g.max_ever.max(hh);
+                snaps.insert(hh, g.clone());
+            }
+            let h = g.height.unwrap();
+            out.push(format!("read kind=logs from={} to={} addr=- topics=none", h.saturating_sub(2), h));
+            out.push(format!("read kind=logs from={} to={} addr={} topics=-", h.saturating_sub(3), h, logc[0].0));
+            out.push(format!("read kind=logs from={} to=latest addr=- topics={}", h.saturating_sub(1), 100 + r.below(3)));
+            continue;
+        }
         if !in_block && roll < 37 && g.height.is_some() {
             // window-edge scenario: park nonce+1, let exactly 9 / 10 / 11 blocks pass, then submit the missing nonce
             let s = 1 + r.below(3) as u8;
@@ -276,7 +306,7 @@ fn gen_case(r: &mut Rng, p: &Params, out: &mut Vec<String>) {
         let field = if r.chance(35) { "b64" } else { "hex" };
         let started = match r.below(12) {
             0 | 1 => {
-                let kind = *r.pick(&["store", "log1", "log2", "log3", "log4", "log0", "revert", "burn", "worker", "creator", "probe", "suicide", "badinit", "revinit", "height", "height"]);
+                let kind = *r.pick(&["store", "log1", "log2", "log3", "log4", "log0", "revert", "burn", "worker", "creator", "probe", "suicide", "badinit", "revinit", "height", "height", "numinit"]);
                 let pk = *r.pick(&PKS);
                 out.push(format!("deploy pk={} code={} {} len=auto txid={} field={}", pk, kind, base, txid, field));
                 if kind != "badinit" && kind != "revinit" {
